@@ -68,6 +68,36 @@ func Yield(where string) {
 	}
 }
 
+// Valuer is what a scheduling point needs of a context.Context.
+type Valuer interface{ Value(key any) any }
+
+var yieldCtx atomic.Pointer[func(Valuer, string)]
+
+// SetYieldCtx installs the function called at the scheduling points that have a
+// context in scope.
+func SetYieldCtx(f func(Valuer, string)) {
+	if f == nil {
+		yieldCtx.Store(nil)
+		return
+	}
+	yieldCtx.Store(&f)
+}
+
+// YieldCtx is Yield for a scheduling point with a context.Context in scope: the
+// simulator reads from it which simulated process the calling goroutine belongs to.
+func YieldCtx(ctx Valuer, where string) {
+	if held.Load() > 0 {
+		return
+	}
+	if f := yieldCtx.Load(); f != nil && ctx != nil {
+		(*f)(ctx, where)
+		return
+	}
+	if f := yield.Load(); f != nil {
+		(*f)(where)
+	}
+}
+
 // Perm returns the order in which n receive clauses are polled.
 func Perm(n int) []int {
 	if f := perm.Load(); f != nil {
@@ -224,7 +254,7 @@ func rewriteFile(name string, src []byte, repo string, rep *Report) ([]byte, boo
 			yieldBlock(fd.Body.List, &locked, func(st ast.Stmt) {
 				o := off(st.Pos())
 				where := fmt.Sprintf("%s:%d", rel, fset.Position(st.Pos()).Line)
-				edits = append(edits, edit{o, o, fmt.Sprintf("verifhook.Yield(%q); ", where)})
+				edits = append(edits, edit{o, o, yieldCall(f, st.Pos(), where) + "; "})
 				rep.Yields = append(rep.Yields, where)
 			})
 		}
@@ -298,7 +328,7 @@ func rewriteFile(name string, src []byte, repo string, rep *Report) ([]byte, boo
 				return off(sel.Body.Rbrace)
 			}
 			var b strings.Builder
-			fmt.Fprintf(&b, "verifhook.Yield(%q)\n%s:\n\tswitch {\n\tdefault:\n\t\tfor _, detselI := range verifhook.Perm(%d) {\n\t\t\tswitch detselI {\n", where, lab, len(recv))
+			fmt.Fprintf(&b, "%s\n%s:\n\tswitch {\n\tdefault:\n\t\tfor _, detselI := range verifhook.Perm(%d) {\n\t\t\tswitch detselI {\n", yieldCall(f, sel.Pos(), where), lab, len(recv))
 			for k, c := range sel.Body.List {
 				cc := c.(*ast.CommClause)
 				comm := string(src[off(cc.Comm.Pos()):off(cc.Comm.End())])
@@ -507,6 +537,69 @@ func yieldBlock(list []ast.Stmt, locked *bool, emit func(ast.Stmt)) {
 			return true
 		})
 	}
+}
+
+// yieldCall returns the scheduling-point call to insert at pos: with the context that is
+// in scope there (a parameter "ctx" of a context type, or "req.Ctx" of a state-machine
+// request parameter "req", of the innermost enclosing function that has one), else without.
+func yieldCall(f *ast.File, pos token.Pos, where string) string {
+	if e := ctxExprAt(f, pos); e != "" {
+		return fmt.Sprintf("verifhook.YieldCtx(%s, %q)", e, where)
+	}
+	return fmt.Sprintf("verifhook.Yield(%q)", where)
+}
+
+func ctxExprAt(f *ast.File, pos token.Pos) string {
+	var chain []*ast.FuncType // outermost first
+	ast.Inspect(f, func(n ast.Node) bool {
+		if n == nil || pos < n.Pos() || pos >= n.End() {
+			return false
+		}
+		switch v := n.(type) {
+		case *ast.FuncDecl:
+			chain = append(chain, v.Type)
+		case *ast.FuncLit:
+			chain = append(chain, v.Type)
+		}
+		return true
+	})
+	for i := len(chain) - 1; i >= 0; i-- {
+		ft := chain[i]
+		if ft.Params == nil {
+			continue
+		}
+		for _, fld := range ft.Params.List {
+			ty := exprText(fld.Type)
+			for _, nm := range fld.Names {
+				if nm.Name == "ctx" {
+					if strings.HasSuffix(ty, "context.Context") || ty == "Context" {
+						return "ctx"
+					}
+					return "" // a parameter named ctx of another type hides any outer context
+				}
+				if nm.Name == "req" && strings.Contains(ty, "statemachine.Request[") {
+					return "req.Ctx"
+				}
+			}
+		}
+	}
+	return ""
+}
+
+func exprText(e ast.Expr) string {
+	switch v := e.(type) {
+	case *ast.Ident:
+		return v.Name
+	case *ast.SelectorExpr:
+		return exprText(v.X) + "." + v.Sel.Name
+	case *ast.StarExpr:
+		return "*" + exprText(v.X)
+	case *ast.IndexExpr:
+		return exprText(v.X) + "[" + exprText(v.Index) + "]"
+	case *ast.IndexListExpr:
+		return exprText(v.X) + "[...]"
+	}
+	return "?"
 }
 
 // lockCall: x.Lock() / x.RLock() / x.Unlock() / x.RUnlock() without arguments.
